@@ -317,6 +317,18 @@ def run(ctx, out):
         g, what = corrupt(rng, gen.g)
         if what is not None:
             items.append(("corrupt:%s:%s" % what, g, graph_from_triples(data), {}, True))
+    # the same ill-formed shapes graphs handed over as a Dataset whose triples sit in a named graph (rdflib's default:
+    # default_union off): every check that walks "the shapes graph" has to look at the union
+    from rdflib import Dataset
+    extra = []
+    for (label, sg, d, kw, wm) in items:
+        if label.startswith("param:") and (label.endswith((":cyclist", ":badlist", ":list_empty", ":badregex")) or rng.random() < 0.03):
+            ds = Dataset()
+            ng = ds.graph(EX.shapesGraph)
+            for t in sg:
+                ng.add(t)
+            extra.append(("ds:" + label, ds, d, kw, False))
+    items += extra
     # ── API ────────────────────────────────────────────────────────────────────────────────────────
     lines = []
     for i, (label, sg, d, kw, with_model) in enumerate(items):
@@ -333,8 +345,11 @@ def run(ctx, out):
             o = classify(lambda: pyshacl.validate(d, shacl_graph=sg, **kw2))
         outcomes.append(o)
         out.count("api:" + o.split(":")[0] + (":" + o.split(":")[1] if o.startswith("raw") else ""))
-        case = {"label": label, "shapes_ttl": sg.serialize(format="turtle"), "data_ttl": d.serialize(format="turtle"), "options": {k: v for k, v in kw.items()}}
+        case = {"label": label, "shapes_ttl": (sg.serialize(format="trig") if label.startswith("ds:") else sg.serialize(format="turtle")),
+                "data_ttl": d.serialize(format="turtle"), "options": {k: v for k, v in kw.items()}}
         if not documented(o):
+            if label.startswith("ds:"):
+                label = label[3:] + ":as-dataset"
             fam = label.split(":")[0]
             what = label.split(":", 1)[1] if fam in ("corpus", "corpus+adv", "adv", "adv+iterate", "rules", "data") else ":".join(label.split(":")[2:3] if fam == "param" else label.split(":")[1:2])
             out.b_fail.append({"signature": "C16:%s:%s" % (o, what), "case": case, "outcome": o})
